@@ -97,3 +97,6 @@ func VerifConnWithFrames(payloads [][]byte) *Conn {
 
 // VerifMaxFrame is the MAXFRAME value the port learned (or defaulted to) during registration.
 func VerifMaxFrame(p *Port) int { return p.maxFrame }
+
+// VerifConnClosed reports whether the connection's demultiplexer has been closed (remote disconnect or Close).
+func VerifConnClosed(c *Conn) bool { return c.demux.isClosed() }
